@@ -192,6 +192,11 @@ def hand_items(ids):
     items.append(Item("HGenNested", "struct", fields=[Field("inner", T.It(plain), decl="T"), Field("list", T.Vec(T.It(plain)), decl="Vec<T>"),
                                                       Field("m", T.Map("btree", "String", I("i8")), decl="std::collections::BTreeMap<String, K>")],
                       generics=[("T", None, T.It(plain)), ("K", None, I("i8"))]))
+    # raw identifiers: the key is the identifier's text as `Ident::to_string` gives it
+    S("HRaw", [Field("r#type", I("u8")), Field("r#match", T.Bool, [[("default", None)]]), Field("plain_one", T.String), Field("r#fn", I("u8"), [[("rename", "fn")]])],
+      [[("deny", None)]])
+    E("HRawTagged", [Variant("Loop", [Field("r#loop", I("u8")), Field("r#type", T.Bool, [[("default", None)]])], [[("rename_all", "camelCase")]]), Variant("Unit")],
+      [[("tag", "kind")]])
     # lifetime and const parameters (the derive copies them into the impl header; only type parameters get a Deserr bound)
     items.append(Item("HConst", "struct", attrs=[[("deny", None)]],
                       fields=[Field("arr", T.Array(3, I("u8")), decl="[u8; N]"), Field("mark", T.Phantom(), [[("default", None)]], decl="std::marker::PhantomData<&'a u8>"),
@@ -490,6 +495,8 @@ def py_camel(ident):
 def eff_key(ident, rename, ra):
     if rename is not None:
         return rename
+    if ident.startswith("r#") and len(ident) > 2:
+        ident = ident[2:]            # the identifier itself: `r#type` is the identifier `type`
     if ra == "camelCase":
         return py_camel(ident)
     if ra == "lowercase":
